@@ -449,6 +449,14 @@ def check_cm_entries(run: Run, exp, src, cromermann):
         z, q, a, c, b = exp.f0[n]
         want = [float(v.frac()) for v in a] + [float(c.frac())] + [float(v.frac()) for v in b]
         run.count(key=("cm", n), nontrivial=True, tag="cm:entry")
+        # no charge argument: the symbol's own valence suffix names the entry
+        for Q in (0.0, 2.5):
+            ref = float(f0_decimal(exp.f0[n], Q / (4 * math.pi)))
+            gq = P.observe(lambda: float(cromermann.fxrayatq(n, Q)))
+            if isinstance(gq, str) or not close(ref, gq, rel=1e-11):
+                run.violation("fxrayatq(%r, %g) without a charge is not the entry's form factor" % (n, Q),
+                              dict(symbol=n, observable="fxrayatq", expected=ref, got=P.tok(gq)),
+                              observable="fxrayatq", symbol=n)
         if got != want:
             run.violation("Cromer-Mann coefficients of %s are not the entry's" % n,
                           dict(symbol=n, observable="getCMformula", expected=want, got=got),
